@@ -266,7 +266,10 @@ def foreign_index_case():
         methodReturnReceived = errorReceived = signalReceived = methodCallReceived
 
     cases = [('hh', [0, 0], [50], [50, 50]), ('hhh', [1, 0, 1], [60, 61], [61, 60, 61]), ('hsh', [1, 'x', 0], [70, 71], [71, 'x', 70]),
-             ('ah', [[0, 0, 1]], [80, 81], [[80, 80, 81]]), ('h', [0], [90], [90])]
+             ('ah', [[0, 0, 1]], [80, 81], [[80, 80, 81]]), ('h', [0], [90], [90]),
+             # descriptors nested in dict entries and structs (option tables of real services): resolved like any other
+             ('a{sh}', [{'out': 0, 'err': 1}], [100, 101], [{'out': 100, 'err': 101}]), ('a{u(hs)}', [{7: [0, 'x']}], [110], [{7: [110, 'x']}]),
+             ('a(sh)', [[['p', 1], ['q', 0]]], [120, 121], [[['p', 121], ['q', 120]]]), ('(s(ih))', [['n', [3, 0]]], [130], [['n', [3, 130]]])]
     for le in (True, False):
         for lead in (False, True):
             r = Receiver()
